@@ -18,7 +18,7 @@ def gen(r, i):
 
 def run(ctx: fw.Ctx) -> int:
     ctx.matchers = {'F6': match_f6}
-    ctx.proofs()
+    ctx.proofs(extra=['Props/C02History.v'])    # + history-level theorems over Model/CycleWorld.v (tied by C03's trace acceptance)
     function_level(ctx)
     cr.run_histories(ctx, ctx.scale(350, 8000), MONITORS, gen=gen)
     return ctx.finish(RULE, level_note=['closed loop: real kopf.operator() against harness/kv/fakeapi.py'])
